@@ -126,7 +126,7 @@ theorem tie_descriptor_offsets :
 theorem tie_shape_NewFirmwareVolume :
     Gen.UefiParse.sliceshapes_NewFirmwareVolume = ["[:h]", "[:h]", "[:h]", "[l:]", "[l:]"] ∧
     Gen.UefiParse.cmpops_NewFirmwareVolume =
-      ["!= 0", "<", "<", "<=", "<=", "== 0", "== 0", "== 0", ">", ">", ">="] ∧
+      ["!= 0", "<", "<=", "<=", "<=", "== 0", "== 0", "== 0", ">", ">", ">="] ∧
     Gen.UefiParse.callcount_NewFirmwareVolume_Align8 = 2 ∧
     Gen.UefiParse.callcount_NewFirmwareVolume_NewFile = 1 := by decide
 
